@@ -4,7 +4,9 @@ EXTENDS MonBase
 
 Check ==
     LET e == E
-        a == acc'          \* history including this event
+        \* history including this event; a non-rotated file that is re-opened without append is truncated at the first
+        \* write of the run (documented): `base` counts the records dropped that way
+        a == SubSeq(acc', base' + 1, Len(acc'))
     IN  IF ~HasObs(e) THEN TRUE ELSE
         LET F == e.obs.files IN
         /\ Chk(e, "AllClean", AllClean(F))
